@@ -29,7 +29,8 @@ from ..evidence import Report
 PROP = "C10"
 INF = -1
 NONEV = 1000000
-RVALS = [0, 1, 3, 9, 33, INF]   # R = 2 r^2 (odd => no integer point on the sphere), Inf
+HUGE = 2000000000
+RVALS = [0, 1, 3, 9, 33, INF, HUGE]   # R = 2 r^2 (odd => no integer point on the sphere), Inf, and a finite radius beyond everything
 
 
 # --------------------------------------------------------------------------------------------
@@ -209,9 +210,25 @@ class Driver:
     def query(self, ci, ri):
         c = self.centers[ci % len(self.centers)]
         R = RVALS[ri % len(RVALS)]
-        radius = np.inf if R == INF else float(np.sqrt(R / 2.0))
-        e = self._blank("Query")
+        form = len(self.events) % 4
+        # radius and centre in the forms a caller may hold them ("all centres and radii (0, tiny, huge, inf)"): R = 0 is
+        # also asked as a radius far below the spacing of the integer points, the radius beyond everything as 1e300,
+        # other radii as Python float / numpy float64 / single precision (R odd keeps every lattice distance > 1 % away)
+        if R == INF:
+            radius = (np.inf, float("inf"), np.float64(np.inf), np.float32(np.inf))[form]
+        elif R == 0:
+            radius = (0.0, 0, 1e-12, 5e-324)[form]
+        elif R == HUGE:
+            radius = (1e300, float(np.sqrt(R / 2.0)), np.float64(1.7e308), 10 ** 15)[form]
+        else:
+            radius = (float(np.sqrt(R / 2.0)), np.float64(np.sqrt(R / 2.0)), np.float32(np.sqrt(R / 2.0)), float(np.sqrt(R / 2.0)))[form]
         d1 = self.case.dim1
+        if d1:
+            c = (float(c), int(c), np.float64(c), np.array(float(c)))[(form + ci) % 4]
+        else:
+            cc = np.asarray(c, dtype=float)
+            c = (cc, cc.astype(int), [float(x) for x in cc], tuple(int(x) for x in cc))[(form + ci) % 4]
+        e = self._blank("Query")
         e["c"], e["r"] = enc_center(c, d1), R
         try:
             with warnings.catch_warnings():
@@ -363,7 +380,7 @@ def _random_beh(rng, length):
     for _ in range(length):
         x = rng.random()
         if x < 0.45:
-            out.append(("Q", rng.randint(1, 4), rng.randint(1, 6)))
+            out.append(("Q", rng.randint(1, 4), rng.randint(1, 7)))
         elif x < 0.65:
             out.append((rng.choice(["SP", "SPI"]), rng.randint(1, 4), 0))
         elif x < 0.75:
